@@ -15,54 +15,46 @@ Notation near := Proofs.C13_Basis.near.
 
 (* ---- domain [t_min, t_max], interval index and local parameter, for all t0, dt > 0, N, t ---- *)
 Theorem C13_window_spec :
-  forall fixed K N t0 dt t i,
+  forall K N t0 dt t i,
   0 < dt -> (0 <= K)%Z -> (N <= two63)%Z -> (0 <= i <= N - K - 1)%Z ->
   t0 + inject_Z i * dt <= t -> t < t0 + inject_Z (i + 1) * dt ->
-  bs_select fixed K N t0 dt t = (i, Qred ((t - t0 - inject_Z i * dt) / dt))
+  bs_select K N t0 dt t = (i, Qred ((t - t0 - inject_Z i * dt) / dt))
   /\ 0 <= (t - t0 - inject_Z i * dt) / dt < 1.
 Proof. exact Proofs.C13_Idx.window_spec. Qed.
 Print Assumptions C13_window_spec.
 
 Theorem C13_knot_select :
-  forall fixed K N t0 dt t i,
+  forall K N t0 dt t i,
   0 < dt -> (0 <= K)%Z -> (N <= two63)%Z -> (0 <= i <= N - K - 1)%Z ->
-  t == t0 + inject_Z i * dt -> bs_select fixed K N t0 dt t = (i, 0).
+  t == t0 + inject_Z i * dt -> bs_select K N t0 dt t = (i, 0).
 Proof. exact Proofs.C13_Idx.knot_select. Qed.
 Print Assumptions C13_knot_select.
 
 Theorem C13_clamp_low :
-  forall fixed K N t0 dt t,
-  0 < dt -> (0 <= K)%Z -> (K + 1 <= N)%Z -> t < bs_tmin t0 -> bs_select fixed K N t0 dt t = (0%Z, 0).
+  forall K N t0 dt t,
+  0 < dt -> (0 <= K)%Z -> (K + 1 <= N)%Z -> t < bs_tmin t0 -> bs_select K N t0 dt t = (0%Z, 0).
 Proof. exact Proofs.C13_Idx.clamp_low. Qed.
 Print Assumptions C13_clamp_low.
 
-(* end value after t_max: for ALL t with the repair notes/C13-huge-t.patch (fixed = true) ... *)
-Theorem C13_clamp_high_fixed :
+(* end value from t_max on, for ALL t - however large (t - t0)/dt is (bspline_impl.hpp:58-59 clamps the quotient to
+   [-1, size()] before the conversion to int64_t; /repo 967e2a1).  N < 2^63 bounds the control-point count, not t. *)
+Theorem C13_clamp_high :
   forall K N t0 dt t,
-  0 < dt -> (0 <= K)%Z -> (K + 1 <= N)%Z -> bs_tmax K N t0 dt <= t ->
-  bs_select true K N t0 dt t = ((N - K - 1)%Z, 1).
-Proof. exact Proofs.C13_Idx.clamp_high_fixed. Qed.
-Print Assumptions C13_clamp_high_fixed.
+  0 < dt -> (0 <= K)%Z -> (K + 1 <= N)%Z -> (N < two63)%Z -> bs_tmax K N t0 dt <= t ->
+  bs_select K N t0 dt t = ((N - K - 1)%Z, 1).
+Proof. exact Proofs.C13_Idx.clamp_high. Qed.
+Print Assumptions C13_clamp_high.
 
-(* ... for the code as it is only while (t - t0)/dt < 2^63 ... *)
-Theorem C13_clamp_high_partial :
-  forall K N t0 dt t,
-  0 < dt -> (0 <= K)%Z -> (K + 1 <= N)%Z -> bs_tmax K N t0 dt <= t -> (t - t0) / dt < inject_Z two63 ->
-  bs_select false K N t0 dt t = ((N - K - 1)%Z, 1).
-Proof. exact Proofs.C13_Idx.clamp_high_partial. Qed.
-Print Assumptions C13_clamp_high_partial.
-
-(* ... and refuted beyond (known finding C13-huge-t): the START value is returned *)
-Theorem C13_clamp_high_refuted :
-  exists K N t0 dt t,
-    0 < dt /\ (0 <= K)%Z /\ (K + 1 <= N)%Z /\ bs_tmax K N t0 dt <= t /\
-    bs_select false K N t0 dt t = (0%Z, 0) /\ (0%Z, 0) <> ((N - K - 1)%Z, 1).
-Proof. exact Proofs.C13_Idx.clamp_high_refuted. Qed.
-Print Assumptions C13_clamp_high_refuted.
+(* the conversion to int64_t on l.58 never sees an out-of-range operand *)
+Theorem C13_cast_defined :
+  forall N s, (0 <= N < two63)%Z ->
+  (- two63 <= qtrunc (qclamp s (-1) (inject_Z N)) < two63)%Z /\ idx_raw N s = qtrunc (qclamp s (-1) (inject_Z N)).
+Proof. exact Proofs.C13_Idx.cast_defined. Qed.
+Print Assumptions C13_cast_defined.
 
 Theorem C13_select_in_range :
-  forall fixed K N t0 dt t, (0 <= K)%Z -> (K + 1 <= N)%Z ->
-  let '(i, u) := bs_select fixed K N t0 dt t in (0 <= i /\ i + K + 1 <= N)%Z /\ 0 <= u <= 1.
+  forall K N t0 dt t, (0 <= K)%Z -> (K + 1 <= N)%Z ->
+  let '(i, u) := bs_select K N t0 dt t in (0 <= i /\ i + K + 1 <= N)%Z /\ 0 <= u <= 1.
 Proof. exact Proofs.C13_Idx.select_in_range. Qed.
 Print Assumptions C13_select_in_range.
 
@@ -144,10 +136,10 @@ Theorem C13_knot_continuity_eval :
   forall (G T : Type) (op : G -> G -> G) (e : G) (inv : G -> G) (exp : T -> G) (log : G -> T)
          (Ad : G -> T -> T) (br tadd : T -> T -> T) (tzero : T) (smul : Q -> T -> T),
   @Laws G T op e inv exp log Ad br tadd tzero smul ->
-  forall (fixed : bool) (ctrl : list G) (t0 dt t : Q) (i : nat),
+  forall (ctrl : list G) (t0 dt t : Q) (i : nat),
   0 < dt -> (Z.of_nat (length ctrl) <= two63)%Z -> (i + K + 2 <= length ctrl)%nat ->
   t == t0 + inject_Z (Z.of_nat (S i)) * dt ->
-  outputs_upto G T (order_of K) (bs_eval G T op e inv exp log Ad br tadd tzero smul fixed (Bideal K) K ctrl t0 dt t)
+  outputs_upto G T (order_of K) (bs_eval G T op e inv exp log Ad br tadd tzero smul (Bideal K) K ctrl t0 dt t)
   = outputs_upto G T (order_of K)
       (Proofs.C13_Curve.scale G T smul dt (window_eval G T op e inv exp log Ad br tadd tzero smul (Bideal K) K ctrl i 1)).
 Proof. exact Proofs.C13_Basis.bspline_knot_continuity_eval. Qed.
@@ -156,10 +148,10 @@ Print Assumptions C13_knot_continuity_eval.
 Theorem C13_bs_eval_window :
   forall (G T : Type) (op : G -> G -> G) (e : G) (inv : G -> G) (exp : T -> G) (log : G -> T)
          (Ad : G -> T -> T) (br tadd : T -> T -> T) (tzero : T) (smul : Q -> T -> T)
-         (fixed : bool) (M : list (list Q)) (K : nat) (ctrl : list G) (t0 dt t : Q) (i : nat),
+         (M : list (list Q)) (K : nat) (ctrl : list G) (t0 dt t : Q) (i : nat),
   0 < dt -> (Z.of_nat (length ctrl) <= two63)%Z -> (i + K + 1 <= length ctrl)%nat ->
   t0 + inject_Z (Z.of_nat i) * dt <= t -> t < t0 + inject_Z (Z.of_nat i + 1) * dt ->
-  bs_eval G T op e inv exp log Ad br tadd tzero smul fixed M K ctrl t0 dt t
+  bs_eval G T op e inv exp log Ad br tadd tzero smul M K ctrl t0 dt t
   = Proofs.C13_Curve.scale G T smul dt
       (window_eval G T op e inv exp log Ad br tadd tzero smul M K ctrl i (Qred ((t - t0 - inject_Z (Z.of_nat i) * dt) / dt))).
 Proof. exact Proofs.C13_Curve.bs_eval_window. Qed.
@@ -169,25 +161,25 @@ Print Assumptions C13_bs_eval_window.
 Theorem C13_local_support :
   forall (G T : Type) (op : G -> G -> G) (e : G) (inv : G -> G) (exp : T -> G) (log : G -> T)
          (Ad : G -> T -> T) (br tadd : T -> T -> T) (tzero : T) (smul : Q -> T -> T)
-         (fixed : bool) (M : list (list Q)) (K : nat) (ctrl ctrl' : list G) (j : nat) (t0 dt t : Q) (d : G),
+         (M : list (list Q)) (K : nat) (ctrl ctrl' : list G) (j : nat) (t0 dt t : Q) (d : G),
   length ctrl = length ctrl' -> (forall k, k <> j -> nth k ctrl d = nth k ctrl' d) ->
-  let i := Z.to_nat (fst (bs_select fixed (Z.of_nat K) (Z.of_nat (length ctrl)) t0 dt t)) in
+  let i := Z.to_nat (fst (bs_select (Z.of_nat K) (Z.of_nat (length ctrl)) t0 dt t)) in
   (j < i \/ i + K < j)%nat ->
-  bs_eval G T op e inv exp log Ad br tadd tzero smul fixed M K ctrl t0 dt t
-  = bs_eval G T op e inv exp log Ad br tadd tzero smul fixed M K ctrl' t0 dt t.
+  bs_eval G T op e inv exp log Ad br tadd tzero smul M K ctrl t0 dt t
+  = bs_eval G T op e inv exp log Ad br tadd tzero smul M K ctrl' t0 dt t.
 Proof. exact Proofs.C13_Curve.local_support. Qed.
 Print Assumptions C13_local_support.
 
 Theorem C13_local_support_interval :
   forall (G T : Type) (op : G -> G -> G) (e : G) (inv : G -> G) (exp : T -> G) (log : G -> T)
          (Ad : G -> T -> T) (br tadd : T -> T -> T) (tzero : T) (smul : Q -> T -> T)
-         (fixed : bool) (M : list (list Q)) (K : nat) (ctrl ctrl' : list G) (j m : nat) (t0 dt t : Q) (d : G),
+         (M : list (list Q)) (K : nat) (ctrl ctrl' : list G) (j m : nat) (t0 dt t : Q) (d : G),
   length ctrl = length ctrl' -> (forall k, k <> j -> nth k ctrl d = nth k ctrl' d) ->
   0 < dt -> (Z.of_nat (length ctrl) <= two63)%Z -> (m + K + 1 <= length ctrl)%nat ->
   t0 + inject_Z (Z.of_nat m) * dt <= t -> t < t0 + inject_Z (Z.of_nat m + 1) * dt ->
   (j < m \/ m + K < j)%nat ->
-  bs_eval G T op e inv exp log Ad br tadd tzero smul fixed M K ctrl t0 dt t
-  = bs_eval G T op e inv exp log Ad br tadd tzero smul fixed M K ctrl' t0 dt t.
+  bs_eval G T op e inv exp log Ad br tadd tzero smul M K ctrl t0 dt t
+  = bs_eval G T op e inv exp log Ad br tadd tzero smul M K ctrl' t0 dt t.
 Proof. exact Proofs.C13_Curve.local_support_interval. Qed.
 Print Assumptions C13_local_support_interval.
 
@@ -196,9 +188,9 @@ Theorem C13_constants :
   forall (G T : Type) (op : G -> G -> G) (e : G) (inv : G -> G) (exp : T -> G) (log : G -> T)
          (Ad : G -> T -> T) (br tadd : T -> T -> T) (tzero : T) (smul : Q -> T -> T),
   @Laws G T op e inv exp log Ad br tadd tzero smul ->
-  forall (fixed : bool) (M : list (list Q)) (K : nat) (g : G) (n : nat) (t0 dt t : Q),
+  forall (M : list (list Q)) (K : nat) (g : G) (n : nat) (t0 dt t : Q),
   (K + 1 <= n)%nat ->
-  bs_eval G T op e inv exp log Ad br tadd tzero smul fixed M K (repeat g n) t0 dt t = (g, tzero, tzero).
+  bs_eval G T op e inv exp log Ad br tadd tzero smul M K (repeat g n) t0 dt t = (g, tzero, tzero).
 Proof. exact Proofs.C13_Curve.constants. Qed.
 Print Assumptions C13_constants.
 
@@ -206,10 +198,10 @@ Theorem C13_left_equivariance :
   forall (G T : Type) (op : G -> G -> G) (e : G) (inv : G -> G) (exp : T -> G) (log : G -> T)
          (Ad : G -> T -> T) (br tadd : T -> T -> T) (tzero : T) (smul : Q -> T -> T),
   @Laws G T op e inv exp log Ad br tadd tzero smul ->
-  forall (fixed : bool) (M : list (list Q)) (K : nat) (ctrl : list G) (h : G) (t0 dt t : Q),
+  forall (M : list (list Q)) (K : nat) (ctrl : list G) (h : G) (t0 dt t : Q),
   (K + 1 <= length ctrl)%nat ->
-  bs_eval G T op e inv exp log Ad br tadd tzero smul fixed M K (map (op h) ctrl) t0 dt t =
-  let '(g, w, a) := bs_eval G T op e inv exp log Ad br tadd tzero smul fixed M K ctrl t0 dt t in (op h g, w, a).
+  bs_eval G T op e inv exp log Ad br tadd tzero smul M K (map (op h) ctrl) t0 dt t =
+  let '(g, w, a) := bs_eval G T op e inv exp log Ad br tadd tzero smul M K ctrl t0 dt t in (op h g, w, a).
 Proof. exact Proofs.C13_Curve.left_equivariance. Qed.
 Print Assumptions C13_left_equivariance.
 
